@@ -89,6 +89,12 @@ def default_may_raise(node):
             return frozenset({'builtins.Exception'})
         if isinstance(n, (ast.Await, ast.Yield, ast.YieldFrom)):
             return frozenset({'builtins.Exception'})   # a generator can have an exception thrown in at the yield
+    for n in walk_local(node):
+        # a division by a variable may raise ZeroDivisionError (`now // interval` inside `try: ... except ZeroDivisionError:`)
+        if (isinstance(n, ast.BinOp) and isinstance(n.op, (ast.Div, ast.FloorDiv, ast.Mod)) and not isinstance(n.right, ast.Constant)
+                and not isinstance(n.left, (ast.Constant, ast.JoinedStr))) or \
+                (isinstance(n, ast.AugAssign) and isinstance(n.op, (ast.Div, ast.FloorDiv, ast.Mod)) and not isinstance(n.value, ast.Constant)):
+            return frozenset({'builtins.ZeroDivisionError'})
     return None
 
 
